@@ -1,7 +1,81 @@
 """C08 — timers measure elapsed tyme exactly and restart losslessly (hio.base.tyming.Tymer, hio.help.timing.MonoTimer)."""
-from .. import core
+from .. import core, sx
 from ..areas import timer as T
 from ..extract import timer as xt
+
+
+# ---- raw-float Tymer stream (oracle only) ------------------------------------------------------------------
+# The property is about floats as the library computes them: elapsed = now - start, remaining = stop - now,
+# expired exactly when now >= stop, restart begins at the previous stop.  The Int-time model cannot speak about
+# rounding, so these cases go to the real code and the oracle only.
+
+def gen_ftymer(rng):
+    vals = [0.1, 0.3, 0.7, 1.1, 4.23, 50.0, 0.05, 2.5, 1e-3, 123.456, 1 / 3, 0.2]
+    pick = lambda: rng.choice(vals) * rng.choice([1, 1, 3, 7, 0.1])
+    tyme0, dur = rng.choice([0.0, pick()]), pick()
+    ops, start, stop, tyme = [], tyme0, tyme0 + dur, tyme0
+    for _ in range(rng.randrange(1, 10)):
+        k = rng.random()
+        if k < 0.45:   # aim at the deadline and its float neighbours
+            import math
+            t = rng.choice([stop, math.nextafter(stop, 0.0), math.nextafter(stop, 1e9), start + (stop - start), tyme + pick()])
+            ops.append(("tyme", t)); tyme = t
+        elif k < 0.6:
+            ops.append(("tick",))
+        elif k < 0.8:
+            d = rng.choice([None, pick()])
+            ops.append(("restart", d)); start, stop = stop, stop + (d if d is not None else stop - start)
+        else:
+            d, st = rng.choice([None, pick()]), rng.choice([None, None, pick()])
+            ops.append(("start", d, st)); dd = d if d is not None else stop - start
+            start = st if st is not None else tyme; stop = start + dd
+    return ("ftymer", tyme0, dur, tuple(ops))
+
+
+def run_ftymer(case):
+    from hio.base import tyming
+    _, tyme0, dur, ops = case
+    tymist = tyming.Tymist(tyme=tyme0, tock=0.03125)
+    tymer = tyming.Tymer(tymth=tymist.tymen(), duration=dur)
+    obs = [(sx.F(tymer.elapsed), sx.F(tymer.remaining), tymer.expired, sx.F(tymist.tyme))]
+    for op in ops:
+        if op[0] == "tyme":
+            tymist.tyme = op[1]
+        elif op[0] == "tick":
+            tymist.tick()
+        elif op[0] == "restart":
+            tymer.restart(duration=op[1])
+        elif op[0] == "start":
+            tymer.start(duration=op[1], start=op[2])
+        obs.append((sx.F(tymer.elapsed), sx.F(tymer.remaining), tymer.expired, sx.F(tymist.tyme)))
+    return tuple(obs)
+
+
+def oracle_ftymer(case, obs):
+    _, tyme0, dur, ops = case
+    start, stop = float(tyme0), float(tyme0) + float(dur)
+    bad = []
+
+    def chk(o):
+        now = o[3].x
+        if o[0].x != now - start:
+            bad.append("elapsed-not-now-minus-start")
+        if o[1].x != stop - now:
+            bad.append("remaining-not-stop-minus-now")
+        if o[2] != (now >= stop):
+            bad.append("expired-not-exactly-now>=stop")
+    chk(obs[0])
+    for op, o in zip(ops, obs[1:]):
+        now = o[3].x
+        if op[0] == "restart":
+            d = float(op[1]) if op[1] is not None else stop - start
+            start, stop = stop, stop + d          # next period begins at the previous stop
+        elif op[0] == "start":
+            d = float(op[1]) if op[1] is not None else stop - start
+            start = float(op[2]) if op[2] is not None else now
+            stop = start + d
+        chk(o)
+    return sorted(set(bad))
 
 
 class C08(core.Check):
@@ -46,6 +120,9 @@ class C08(core.Check):
             ("tymer", (0, 0, 32, 32), (None, None, None), (("restart", 5), ("wind", 1), ("tick", 1))),
             ("tymer", (10, 7, 1, 1), (0, 5, None), (("tyme", 0, 15), ("restart", None), ("tyme", 0, 3), ("restart", None), ("tyme", 0, 25))),
             ("tymer", (10, 7, 1, 1), (None, 5, None), (("start", None, None), ("tick", 0))),
+            # raw-float stream: expired must be tyme >= stop exactly, not elapsed >= duration (rounds differently)
+            ("ftymer", 4.23, 50.0, (("tyme", 54.23),)),
+            ("ftymer", 0.1, 0.7, (("tyme", 0.8), ("restart", None), ("tyme", 1.5), ("restart", 0.3), ("tyme", 1.8))),
         ]
 
     def exhaustive(self, tier):
@@ -64,14 +141,27 @@ class C08(core.Check):
     def generate(self, rng, n, tier):
         for _ in range(n):
             r = rng.random()
-            if r < 0.35:
+            if r < 0.12:
+                yield gen_ftymer(rng)
+            elif r < 0.35:
                 yield T.gen_tymer(rng)
             elif r < 0.45:
                 yield T.boundary_tymer(rng)
             else:
                 yield T.gen_mono(rng)
 
+    def request(self, case):
+        if case[0] != "ftymer":
+            return case
+        w = lambda v: sx.F(v) if isinstance(v, float) else (tuple(w(x) for x in v) if isinstance(v, tuple) else v)
+        return w(case)
+
+    def model_applies(self, case):
+        return case[0] != "ftymer"      # raw (non-dyadic) floats: oracle only, the model's time is Int
+
     def run_impl(self, case):
+        if case[0] == "ftymer":
+            return run_ftymer(case)
         if case[0] == "tymer":
             return T.run_tymer(case)
         if case[0] == "mono":
@@ -79,10 +169,14 @@ class C08(core.Check):
         raise core.Infra(f"bad case {case!r}")
 
     def oracle(self, case, obs):
+        if case[0] == "ftymer":
+            return oracle_ftymer(case, obs)
         return T.oracle_tymer(case, obs) if case[0] == "tymer" else T.oracle_mono(case, obs)
 
     def nontrivial(self, case, obs):
         ops = case[-1]
+        if case[0] == "ftymer":
+            return len(ops) >= 2
         if len(ops) < 2:
             return False
         if case[0] == "tymer":
@@ -90,6 +184,8 @@ class C08(core.Check):
         return any(d < 0 for d in case[2]) or any(o[0] in ("start", "restart") for o in ops)
 
     def features(self, case, obs):
+        if case[0] == "ftymer":
+            return ["ftymer"] + (["ftymer:expired-seen"] if any(o[2] for o in obs) else [])
         f = [case[0]]
         ops = case[-1]
         f.append(f"{case[0]}:ops~{min(len(ops) // 5 * 5, 40)}")
@@ -119,9 +215,14 @@ class C08(core.Check):
         return f
 
     def shrink(self, case):
+        if case[0] == "ftymer":
+            ops = case[3]
+            return [("ftymer", case[1], case[2], ops[:i] + ops[i + 1:]) for i in range(len(ops))]
         return T.shrink_tymer(case) if case[0] == "tymer" else T.shrink_mono(case)
 
     def mutate(self, rng, case):
+        if case[0] == "ftymer":
+            return []
         out = list(self.shrink(case))[:30]
         if case[0] == "mono":
             for _ in range(10):
